@@ -32,3 +32,7 @@ Proof. unfold run_pipeline_order, pipeline_runs. cbn. destruct (f_rdns fl), (f_s
 Theorem redaction_shape_tied :
   run_error_returns_no_result = true /\ redact_visits_every_hop = true /\ redact_condition_is_private_address = true /\ redact_keeps_only_ttl = true.
 Proof. repeat split; reflexivity. Qed.
+
+(** GetPublicIP asks the providers in order, moves on after ANY error of one, and returns the first success *)
+Theorem provider_loop_shape_tied : publicip_first_success_loop = true.
+Proof. reflexivity. Qed.
